@@ -19,18 +19,22 @@ def src_f(v):
     return "@m.memento_function\ndef f(x):\n    return h(x) + %d\n" % (10 + v)
 
 
-def src_g(v, kind):
-    deco = "@m.memento_function\n" if kind == "m" else ""
+def src_g(v, kind, declared=False):
+    deco = ("@m.memento_function(dependencies=[k])\n" if declared else "@m.memento_function\n") if kind == "m" else ""
     return "%sdef g(x):\n    return x * %d\n" % (deco, 2 + v)
 
 
+SRC_K = "@m.memento_function\ndef k(x):\n    return x\n"
+
+
 def src_h(v):
-    return "def h(x):\n    if 'u' in globals():\n        u()\n    return g(x) + G + len(L) + %d\n" % v
+    return "def h(x):\n    if 'u' in globals():\n        u()\n    return g(x) + G + len(L) + len(T[1]) + %d\n" % v
 
 
-def src_globals(gv, ln, gk="int"):
+def src_globals(gv, ln, gk="int", tn=0):
     g = {"int": "G = %d\n" % gv, "fn": "def G():\n    return %d\n" % gv, "obj": "G = object()\n"}[gk]
-    return g + "L = %r\n" % (list(range(ln)),)
+    # T: a tuple (immutable, identity never changes) holding a list that is mutated in place
+    return g + "L = %r\nT = (0, %r)\n" % (list(range(ln)), list(range(tn)))
 
 
 def src_u():
@@ -38,16 +42,16 @@ def src_u():
 
 
 def full_text(st):
-    t = src_globals(st["G"], st["L"], st.get("Gk", "int"))
+    t = src_globals(st["G"], st["L"], st.get("Gk", "int"), st.get("T", 0))
     if st["u"]:
         t += src_u()
-    t += src_g(st["g"], st["gk"]) + src_h(st["h"]) + src_f(st["f"])
+    t += SRC_K + src_g(st["g"], st["gk"], st.get("gd", False)) + src_h(st["h"]) + src_f(st["f"])
     return t
 
 
 EVENTS = ["redef-f", "redef-g", "redef-h", "rebind-G", "mutate-L", "define-u", "g-to-plain", "g-to-memento",
           "clone-partial", "clone-context", "clone-force-local", "wrapper", "query-f", "query-g", "query-clone", "query-wrapper",
-          "redef-f-same", "rebind-G-to-function", "rebind-G-to-object", "undo-g"]
+          "redef-f-same", "rebind-G-to-function", "rebind-G-to-object", "undo-g", "mutate-T-inner", "g-declares-dependency"]
 
 
 def fresh_versions(st):
@@ -105,7 +109,7 @@ def _history(events, L, warm):
                 prog.exec(src_f(st["f"]))
             elif name == "redef-g":
                 st["g"] += 1
-                prog.exec(src_g(st["g"], st["gk"]))
+                prog.exec(src_g(st["g"], st["gk"], st.get("gd", False)))
             elif name == "redef-h":
                 st["h"] += 1
                 prog.exec(src_h(st["h"]))
@@ -122,12 +126,22 @@ def _history(events, L, warm):
                 # ... or an arbitrary object
                 st["Gk"] = "obj"
                 prog.exec("G = object()\n")
+            elif name == "mutate-T-inner":
+                # in-place mutation of a list held by a tracked TUPLE (the tuple object itself never changes identity)
+                st["T"] = st.get("T", 0) + 1
+                prog.T[1].append(st["T"] - 1)
+            elif name == "g-declares-dependency":
+                # g is re-defined with an identical body but now DECLARES a dependency (toggles)
+                if st["gk"] != "m":
+                    continue
+                st["gd"] = not st.get("gd", False)
+                prog.exec(src_g(st["g"], "m", st["gd"]))
             elif name == "undo-g":
                 # g goes back to its previous edition (same text, hence same version, as one registered earlier)
                 if st["g"] == 0:
                     continue
                 st["g"] -= 1
-                prog.exec(src_g(st["g"], st["gk"]))
+                prog.exec(src_g(st["g"], st["gk"], st.get("gd", False)))
                 cover("definition-restored")
             elif name == "mutate-L":
                 st["L"] += 1
@@ -137,10 +151,11 @@ def _history(events, L, warm):
                 prog.exec(src_u())
             elif name == "g-to-plain":
                 st["gk"] = "p"
+                st["gd"] = False
                 prog.exec(src_g(st["g"], "p"))
             elif name == "g-to-memento":
                 st["gk"] = "m"
-                prog.exec(src_g(st["g"], "m"))
+                prog.exec(src_g(st["g"], "m", st.get("gd", False)))
             elif name == "clone-partial":
                 clone = prog.f.partial(1)
             elif name == "clone-context":
@@ -185,7 +200,7 @@ def _history(events, L, warm):
     "C13.histories",
     covers=("query", "query-clone", "query-wrapper", "query-after-event", "warm-cache", "definition-restored"),
     split={"e0": list(range(len(EVENTS)))},
-    bounds="all event sequences of length <= L over %d events (redefine f/g/h, restore g's previous edition, rebind / mutate tracked variables, rebind a tracked variable to a function / an "
+    bounds="all event sequences of length <= L over %d events (redefine f/g/h, restore g's previous edition, re-define g with the same body but a declared dependency, rebind / mutate tracked variables (incl. a list inside a tracked tuple), rebind a tracked variable to a function / an "
            "arbitrary object, define an undefined "
            "symbol, memento<->plain, three kinds of modifier clone, unregistered wrapper, version queries of f/g/clone/wrapper) on the "
            "program f -> h -> g with globals G, L; L = 3 quick, 4 thorough; version cache warm or cold at the start" % len(EVENTS),
